@@ -1931,7 +1931,7 @@ def check_getter(cls_qual, name, flag, scn_names):
             info["verdict"] = "%d notification(s) arrive during the computation and the object stays dirty: the next call recomputes" % len(lost)
             info["notifications_during_compute"] = len(lost)
             continue
-        fv = fresh_value()
+        fv = fresh_value()     # the fresh copy is evaluated in the state its constructor left it in (initial flags / caches)
         if not heap.same_value(v1, fv, ATOL, ATOL):
             ops, found = find_witness(sn, kinds=("stale",))
             _refute("%s.%s recomputed with %s=True differs from a fresh copy: %s vs %s" % (cls.__name__, name, flag, _fmt(v1), _fmt(fv)), sn, ops, found, {"shape": shape})
